@@ -140,6 +140,9 @@ func genItem(r *Rng, n int, level int) Item {
 	}
 	switch r.Intn(top) {
 	case 0:
+		if r.Chance(1, 2) {
+			return Item{K: "i", N: r.Intn(12)} // small values that different tables have in common
+		}
 		return Item{K: "i", N: r.Range(-5, 100000)}
 	case 1:
 		return Item{K: "b", N: r.Intn(2)}
